@@ -41,7 +41,7 @@ EXHAUSTIVE = {"quick": True, "thorough": True}
 
 F24 = "symdiff-keeps:item-present-only-after-validation"
 F25 = "copy-revalidates:deepcopy-nonidempotent-validator"
-F26 = "difference_update-partial:later-operand-raises"
+F26 = "difference_update-partial:operand-raises-midway"
 
 
 def corpus():
@@ -49,6 +49,7 @@ def corpus():
         # F24 (known): pinned by test_ixor_validator_args_with_added
         "ts|tostr|[i1,i2,i3]|ix S[s2,i3,i4]",
         "ts|toint|[i3]|sy L[s3]",
+        "ts|toint|[i3]|ix S[s3]",
         # F1 (fixed): deepcopy
         "ts|intonly|[i1,i2]|cp d s9;cp c s9;cp p s9;sw d;ad s1;ad i5",
         # F25 (known): deepcopy re-validates
@@ -58,6 +59,9 @@ def corpus():
         "ts|failk:1:ValueError|[]|ad i1;ud L[i1,i2];io S[i1,i2];ix S[i1,i2];sy L[i1,i2];ix S[i1];iu;du L[i1] L[i5]",
         "ps|id|[i1,i2]|sy L[i2,i3,i3];ix L[i1];ix S[i1,i9];iu S[i1,i9] L[i9];du;po i9",
         "#ts|id|[i1,i2]|ix T;ud T;ad i1;is T;ad i2;sy T;ad i3;iu T;du T;io N;ud N;ad U;ud L[U];cp m i1",
+        # F26 (known): set.difference_update applies operands / items one by one
+        "#ts|id|[i1,i2]|du S[i1] N",
+        "#ts|id|[i1,i2,i3]|ud E[i7];iu E[i1];sy E[i1];du E[i1]",
     ]
 
 
@@ -65,7 +69,7 @@ def generate(rng, tier):
     if tier == "quick":
         nh, nm = 3000, 300
     elif tier == "thorough":
-        nh, nm = 60000, 5000
+        nh, nm = 100000, 10000
     else:
         nh, nm = 20000, 2000
     t = "quick" if tier == "quick" else "thorough"
@@ -109,6 +113,7 @@ def reference(snap, cmd, v):
             for o in ops:
                 for x in o:               # a non-iterable operand raises TypeError here, like set.update
                     validated.append(v.pure(n, x))
+                    hash(validated[-1])   # ... and an unhashable item raises when it is reached
                     n += 1
             ref.update(validated)
             return None, ref, None, None
@@ -315,7 +320,7 @@ def _run(case, resolving=False):
             tags.add("err:" + S.exc_name(exc))
             if after != snap:
                 sig = "failed-op-mutated:" + k
-                if k == "du" and len(cmd[1]) > 1 and not calls:
+                if k == "du" and not calls:
                     sig = F26
                 hits.append(_hit(sig, "failing %s changed the set%s" % (k, "" if calls else " and notified nobody"),
                                  before=_srt(snap), after=_srt(after)))
